@@ -51,7 +51,7 @@
     reader returns for the written lines has the meaning btor2 assigns to those lines. *)
 From Coq Require Import List String NArith Bool.
 From Patronus Require Import SysClosed Btor2Parse Btor2Ser Btor2Sem Btor2Agree Btor2Witness Btor2NoCrash Btor2Sound Btor2ParseProofs Btor2SerProofs
-     Btor2RoundTripSpec Btor2RoundTrip Btor2RoundTripEnv Btor2SerNames Btor2RtNamed Btor2NamesSurvive.
+     Btor2RoundTripSpec Btor2RoundTrip Btor2RoundTripEnv Btor2SerNames Btor2RtNamed Btor2NamesSurvive Btor2NamesOutside Btor2NamesInUse Btor2NamesOutputs.
 Import ListNotations.
 Open Scope N_scope.
 
@@ -245,6 +245,88 @@ Proof.
     repeat (constructor; [cbn [In]; intros H; repeat (destruct H as [H|H]; [discriminate H|]); exact H|]). constructor. }
   split; [eexists; split; [vm_compute; reflexivity|vm_compute; discriminate]|].
   vm_compute. split; reflexivity.
+Qed.
+
+(** The same with conditions on the NAMES instead of the writer's label list: outside [KnownClass], if the
+    raw input names are pairwise distinct and every explicit input name is [apart] (it is none of the state
+    names and debug names, and is not [b_k] for an output, state or debug name [b] - the shape
+    [unique_name] gives a label whose base is taken), then for a writer that does not name labels after
+    inputs ([w_input_labels], /repo 196ebd7; without it: the fixed finding names:inputs:referenced-by-label)
+    and a system whose bad states / constraints refer to declared symbols only, EVERY explicit input (name
+    not empty, not of the reader's default shape) comes back as the same symbol at the same position. *)
+Theorem C09_names_survive_inputs_outside_known :
+  forall v wv sy nm lines,
+    sys_ok_weak sy = true -> (is_fix v = true -> props_1bit sy = true) -> (v = Fix2 -> w_no_array_alias wv = true) ->
+    NoDup (declared sy) -> NoDup (map raw_name (s_inputs sy)) -> sys_fits sy = true ->
+    KnownClass sy nm = false ->
+    (forall i, In i (s_inputs sy) -> explicit (raw_name i) = true -> apart sy nm (raw_name i)) ->
+    w_input_labels wv = true ->
+    (forall e, In e (s_constraints sy ++ s_bads sy) -> is_symbol e = true -> In e (declared sy)) ->
+    serialize_named_v wv sy nm = POk lines -> N.of_nat (List.length lines) <= U32MAX ->
+    exists sy', (forall dbg, parse_lines_v v dbg lines = POk sy') /\
+      Forall2 (fun i i' => explicit (raw_name i) = true -> i' = i)
+              (s_inputs sy) (firstn (List.length (s_inputs sy)) (s_inputs sy')).
+Proof. exact names_survive_inputs_outside_known. Qed.
+Print Assumptions C09_names_survive_inputs_outside_known.
+
+(** Non-vacuity of the additional hypotheses on [c09_named] (the others: [C09_names_hyps]). *)
+Example C09_names_outside_hyps :
+  forallb (fun i => explicit (raw_name i)) (s_inputs c09_named) = true /\
+  (forall i, In i (s_inputs c09_named) -> explicit (raw_name i) = true -> apart c09_named [] (raw_name i)) /\
+  w_input_labels writer_repo = true /\
+  (forall e, In e (s_constraints c09_named ++ s_bads c09_named) -> is_symbol e = true -> In e (declared c09_named)).
+Proof.
+  split; [vm_compute; reflexivity|]. split; [|split; [reflexivity|]].
+  - intros i Hi _. cbn in Hi. destruct Hi as [<-|[<-|[]]]; (split; [cbn; intros H; repeat (destruct H as [H|H]; [discriminate H|]); exact H|]);
+      intros b Hb; cbn in Hb; repeat (destruct Hb as [<-|Hb]; [vm_compute; reflexivity|]); contradiction.
+  - intros e He _. cbn in He. destruct He as [<-|[]]. cbn. right. right. left. reflexivity.
+Qed.
+
+
+(** ** the name-in-use invariant of the reader, and the names of OUTPUTS *)
+(** For EVERY text and reader variant: after reading, every name in use is of the reader's default shape,
+    or a base some line asked for ([name_base]: the 4th token of a declaration / property line or the
+    default of its kind, the cleaned name token of a node line), or [b_k] for such a base [b].  A
+    declaration or label gets exactly the name it asks for iff that name is not in use; this invariant
+    is what the names of states and outputs depend on. *)
+Theorem C09_names_in_use :
+  forall v dbg ls ps err,
+    parse_fold_v v dbg ls p_empty false = POk (ps, err) ->
+    forall x, In x (p_used ps) -> gen_ok (bases_of ls) x.
+Proof. exact names_in_use. Qed.
+Print Assumptions C09_names_in_use.
+
+(** PROVED for outputs, for every system, writer variant, reader variant, name table, both profiles: if the
+    output names are pairwise distinct and none is a reserved word, then every output whose name is
+    [apart_from] the tokens the writer prints before the outputs ([printed]: the names on the input and
+    state declarations - a state that takes its name from a label has none -, the cleaned debug names) and
+    from the other output names (explicit; none of those tokens; not [b_k] for a token or another output
+    name [b]) keeps its name at its position.  Necessary: [C09_names_default_output_refuted] (the output
+    [_state_1_0] is [b_k] for the debug name [_state_1]). *)
+Theorem C09_names_survive_outputs_partial :
+  forall v wv sy nm lines,
+    sys_ok_weak sy = true -> (is_fix v = true -> props_1bit sy = true) -> (v = Fix2 -> w_no_array_alias wv = true) ->
+    NoDup (declared sy) -> sys_fits sy = true ->
+    NoDup (map fst (s_outputs sy)) -> (forall o, In o (s_outputs sy) -> ~ In (fst o) reserved_names) ->
+    serialize_named_v wv sy nm = POk lines -> N.of_nat (List.length lines) <= U32MAX ->
+    exists sy', (forall dbg, parse_lines_v v dbg lines = POk sy') /\
+      Forall2 (fun o o' => apart_from (printed (label_ctx wv sy nm) sy) (map fst (s_outputs sy)) (fst o) -> fst o' = fst o)
+              (s_outputs sy) (s_outputs sy').
+Proof. exact names_survive_outputs. Qed.
+Print Assumptions C09_names_survive_outputs_partial.
+
+(** Non-vacuity on [c09_named]: its output [both] satisfies the hypothesis. *)
+Example C09_names_outputs_hyps :
+  NoDup (map fst (s_outputs c09_named)) /\ (forall o, In o (s_outputs c09_named) -> ~ In (fst o) reserved_names) /\
+  printed (label_ctx writer_repo c09_named []) c09_named = ["a"; "b"]%string /\
+  apart_from (printed (label_ctx writer_repo c09_named []) c09_named) (map fst (s_outputs c09_named)) "both".
+Proof.
+  split; [cbn; constructor; [intros []|constructor]|]. split.
+  { intros o Ho. cbn in Ho. destruct Ho as [<-|[]]. cbn. intros H. repeat (destruct H as [H|H]; [discriminate H|]). exact H. }
+  assert (E : printed (label_ctx writer_repo c09_named []) c09_named = ["a"; "b"]%string) by (vm_compute; reflexivity).
+  split; [exact E|]. rewrite E. split; [vm_compute; reflexivity|]. split.
+  - cbn. intros H. repeat (destruct H as [H|H]; [discriminate H|]). exact H.
+  - intros b Hb _. cbn in Hb. repeat (destruct Hb as [<-|Hb]; [vm_compute; reflexivity|]). contradiction.
 Qed.
 
 (** The excluded classes are necessary: in each of them a name changes (writer and reader of /repo). *)
